@@ -124,7 +124,9 @@ const tgenSig = "s string, t string, b bool, c bool, n int, items []string, u te
 func (g *tgen) note(k string) { g.counts[k]++ }
 
 var tgWords = []string{"hello", "world", "a", "b c", "x&amp;y", "&lt;tag&gt;", "&nbsp;", "é", "日本", "1 &lt; 2", "it's", "“q”", "&#34;", "€5"}
-var tgStrExprs = []string{"s // c\n", "s", "t", `"lit"`, `"a\"b"`, "`raw`", `fmt.Sprintf("%s-%d", s, n)`, "strErr(t)", "p.Name", `s + t`, "items[0]", `fmt.Sprint(n)`, "s /* c */"}
+var tgStrExprs = []string{"s // c\n", "s", "t", `"lit"`, `"a\"b"`, "`raw`", `fmt.Sprintf("%s-%d", s, n)`, "strErr(t)", "p.Name", `s + t`, "items[0]", `fmt.Sprint(n)`, "s /* c */",
+	// one line as written, several lines after gofmt
+	`struct{a string; b string}{s, "y"}.a`, `func() string { if b { return s }; return t }()`}
 var tgBoolExprs = []string{"b", "c", "!b", "b && c", "n > 1", "p.On", `s == "x"`, "len(items) > 0", "true", "false"}
 var tgBlock = []string{"div", "p", "section", "ul", "article", "main", "h1", "blockquote", "form", "table"}
 var tgInline = []string{"span", "a", "b", "em", "strong", "button", "label", "i", "code", "small"}
@@ -165,6 +167,10 @@ func (g *tgen) attr(el string, ind int) string {
 		v := g.r.pick([]string{"v", "a b", "x&amp;y", "it's", "&lt;", "", "é", "1&quot;2", "a&#39;b", "/s?q=1&amp;copy=2&amp;lt=5", "a&amp;amp;b", "&amp;#65", "x &amp; y", "&copy", "a&b", "&amp;reg"})
 		if g.r.chance(1, 4) && !strings.Contains(v, "'") {
 			return fmt.Sprintf("data-k='%s'", strings.ReplaceAll(v, "&quot;", "\""))
+		}
+		if g.r.chance(1, 6) && !strings.ContainsAny(v, " '\"=<>`") && v != "" {
+			// an unquoted value (ended by the white space that follows it); character references count there too
+			return fmt.Sprintf("%s=%s ", g.r.pick([]string{"title", "data-x", "lang"}), v)
 		}
 		return fmt.Sprintf(`%s="%s"`, g.r.pick([]string{"id", "title", "data-x", "name", "lang"}), v)
 	case k == 3:
@@ -375,7 +381,12 @@ func (g *tgen) node(ind int) (string, bool) {
 		s := fmt.Sprintf("if %s {\n%s%s}", g.pickBool(), g.body(ind+1, 1+g.r.intn(2)), g.closer(ind))
 		if g.r.chance(1, 3) {
 			g.note("else-if")
-			s += fmt.Sprintf(" else if %s {\n%s\n%s}", g.pickBool(), g.body(ind+1, 1), g.indent(ind))
+			if g.r.chance(1, 5) {
+				// an empty branch still decides that the branches after it are not taken
+				s += fmt.Sprintf(" else if %s {\n%s}", g.pickBool(), g.indent(ind))
+			} else {
+				s += fmt.Sprintf(" else if %s {\n%s\n%s}", g.pickBool(), g.body(ind+1, 1), g.indent(ind))
+			}
 		}
 		if g.r.chance(1, 2) {
 			g.note("else")
